@@ -35,7 +35,7 @@ def rule_tracker(ctx):
         return
     tmethods = [m['name'] for m in trait['methods']]
     # ---- W1: Tracking helpers
-    helpers = [b for b in F.bodies.values() if b.crate == 'pie' and b.kind == 'AssocFn' and b.impl_self and type_head(b.impl_self) == 'pie::pie::Tracking'
+    helpers = [b for b in F.bodies.values() if b.crate == 'pie' and b.kind == 'AssocFn' and b.impl_self and type_head(b.impl_self) == ctx.roles.tracking_adt
                and not b.impl_trait and b.local_ty(0).startswith('{closure@')]
     R.floor('W1', 'Tracking start/end helpers', len(helpers), 11, props=P)
     ctx.tracking_helpers = {b.id: b for b in helpers}
@@ -93,7 +93,7 @@ def rule_tracker(ctx):
     ev_invoke = Event('invoke', m_invoke)
     n = 0
     for body in F.bodies.values():
-        if body.crate != 'pie' or body.is_test_code() or (body.impl_self and type_head(body.impl_self) == 'pie::pie::Tracking'):
+        if body.crate != 'pie' or body.is_test_code() or (body.impl_self and type_head(body.impl_self) == ctx.roles.tracking_adt):
             continue
         for h in body.find_calls(lambda c: F.callee_body(c) is not None and F.callee_body(c).id in ctx.tracking_helpers):
             n += 1
@@ -114,7 +114,7 @@ def rule_tracker(ctx):
     R.floor('W2', 'uses of Tracking helpers', n, 12, props=P)
     # direct start/end calls outside the helpers obey the same nesting
     for body in F.bodies.values():
-        if body.crate != 'pie' or body.is_test_code() or body.impl_trait == TRK or (body.impl_self and type_head(body.impl_self) == 'pie::pie::Tracking') or body.kind == 'Closure':
+        if body.crate != 'pie' or body.is_test_code() or body.impl_trait == TRK or (body.impl_self and type_head(body.impl_self) == ctx.roles.tracking_adt) or body.kind == 'Closure':
             continue
         for e in body.find_calls(lambda c: c.trait == TRK and c.name.endswith('_end')):
             sname = e.name[:-4] + '_start'
